@@ -22,6 +22,7 @@ import (
 	"strconv"
 	"strings"
 	"sync"
+	"time"
 
 	"verif/harness/evid"
 	"verif/harness/fakelfs"
@@ -51,7 +52,14 @@ type faultPlan struct {
 	armings  int
 }
 
+// exhaustKind (wide trees only, wide.go): the storage GET of one or two EARLY objects fails with 503 until their
+// per-object retry budget (lfs.transfer.maxretries = 1 or 2) is used up; with lfs.transfer.batchsize 2..3 and many
+// objects waiting, the queue then lists such an exhausted object in a batch request together with objects that still
+// have budget, and that batch request is answered 429 (once per exhausted object; batch answers are slightly delayed).
+const exhaustKind = "exhausted-object-in-failed-batch"
+
 type victimState struct {
+	hit429   bool
 	n        int // faulty answers scripted
 	size     int
 	gets     int // storage GETs seen
@@ -101,6 +109,9 @@ func (fs *faultScript) note(v *victimState) {
 
 // answer is called (through the per-source hook) for every request to this scenario's server repository.
 func (fs *faultScript) answer(rq *fakelfs.Request) *fakelfs.Fault {
+	if fs.kind == exhaustKind && rq.Kind == "batch" {
+		time.Sleep(10 * time.Millisecond) // a retried object meets objects that were not sent yet
+	}
 	fs.mu.Lock()
 	defer fs.mu.Unlock()
 	if len(fs.victims) == 0 {
@@ -117,7 +128,7 @@ func (fs *faultScript) answer(rq *fakelfs.Request) *fakelfs.Fault {
 			return nil
 		}
 		switch fs.kind {
-		case "get-503-beyond-retries", "get-503-within-retries", "get-503-persistent":
+		case "get-503-beyond-retries", "get-503-within-retries", "get-503-persistent", exhaustKind:
 			fs.note(v)
 			return &fakelfs.Fault{Status: 503}
 		case "get-reset":
@@ -144,6 +155,24 @@ func (fs *faultScript) answer(rq *fakelfs.Request) *fakelfs.Fault {
 			return &fakelfs.Fault{CloseAfter: rem / 2}
 		}
 	case "batch":
+		if fs.kind == exhaustKind {
+			objs, _ := rq.JSON["objects"].([]any)
+			fire := false
+			for _, x := range objs {
+				o, _ := x.(map[string]any)
+				oid, _ := o["oid"].(string)
+				if v := fs.victims[oid]; v != nil && v.gets >= v.n && !v.hit429 && len(objs) > 1 {
+					v.hit429 = true
+					fs.note(v)
+					fire = true
+				}
+			}
+			if fire {
+				fs.run.Count("faults_batch_429_with_exhausted_and_other_objects", 1)
+				return &fakelfs.Fault{Status: 429}
+			}
+			return nil
+		}
 		if fs.kind != "batch-404-once" {
 			return nil
 		}
@@ -213,6 +242,8 @@ func (fp *faultPlan) scriptedAnswers(fr *rand.Rand) int {
 		return 1 + fr.Intn(fp.Retries)
 	case "get-503-beyond-retries":
 		return fp.Retries + 1
+	case exhaustKind:
+		return fp.Retries
 	case "get-503-persistent":
 		return 1 << 30
 	case "get-reset", "get-cut":
@@ -224,7 +255,7 @@ func (fp *faultPlan) scriptedAnswers(fr *rand.Rand) int {
 // maybeArm chooses the victims when the scenario reaches the first step >= Target whose command is about to
 // download something (cands = oids that step needs and that are neither local nor in the reference store).
 func (s *scn) maybeArm(step int, kind string, cands func() []string) {
-	if s.fs == nil || step < s.fp.Target || s.fp.armings >= 3 || (s.fp.armings > 0 && s.fp.Kind == "get-503-persistent") {
+	if s.fs == nil || step < s.fp.Target || s.fp.armings >= 3 || (s.fp.armings > 0 && (s.fp.Kind == "get-503-persistent" || s.fp.Kind == exhaustKind)) {
 		return
 	}
 	var cs []string
@@ -245,8 +276,15 @@ func (s *scn) maybeArm(step int, kind string, cands func() []string) {
 	if len(cs) == 0 {
 		return
 	}
-	sort.Strings(cs)
-	s.fr.Shuffle(len(cs), func(i, j int) { cs[i], cs[j] = cs[j], cs[i] })
+	if s.fp.Kind == exhaustKind {
+		// keep the candidates in tree order: the victims are the objects the queue sees first
+		if len(cs) < 6 {
+			return
+		}
+	} else {
+		sort.Strings(cs)
+		s.fr.Shuffle(len(cs), func(i, j int) { cs[i], cs[j] = cs[j], cs[i] })
+	}
 	n := s.fp.NVictims
 	if n > len(cs) {
 		n = len(cs)
